@@ -209,10 +209,19 @@ func verif_C07_abandon() {
 // like a command line - arrives afterwards. The backend never reads EOF, no
 // positive reply is given for the cut chunk and no octet of it is executed.
 func verif_C07_timeout() {
-	verifPreemptBound(0)
+	verifPreemptBound(verifBound(1, 2))
 	shape := verifChoice(3) // 0 accepted LAST chunk, 1 accepted non-LAST chunk, 2 refused BDAT (no transaction)
+	mode := verifChoice(3)  // 0 SMTP, 1 LMTP plain session, 2 LMTP per-recipient session
+	// (a per-recipient backend that sets its verdict before it reads is left
+	// out here: when the read fails before the delivery goroutine has started,
+	// the server has filled in the statuses already and that SetStatus panics
+	// inside the backend - recovered and logged, no protocol effect)
+	early := false
 	chunk := "ab\r\nMAIL FROM:<bait@v>\r\ncd"
 	head := "EHLO c\r\n"
+	if mode != 0 {
+		head = "LHLO c\r\n"
+	}
 	nhead := 2 // greeting + EHLO
 	line := "BDAT " + strconv.Itoa(len(chunk))
 	switch shape {
@@ -229,7 +238,7 @@ func verif_C07_timeout() {
 	at := nondetInt(0, len(chunk)-1)
 	var rerr error
 	var got []byte
-	be := &vbackend{}
+	be := &vbackend{lmtpSession: mode == 2}
 	be.dataFn = func(_ *vsession, r io.Reader) error {
 		got, rerr = verifReadAll(r, 3)
 		if rerr == io.EOF {
@@ -237,7 +246,18 @@ func verif_C07_timeout() {
 		}
 		return rerr
 	}
+	be.lmtpFn = func(_ *vsession, r io.Reader, st StatusCollector) error {
+		if early {
+			st.SetStatus("r@v", verifErrBackend())
+		}
+		got, rerr = verifReadAll(r, 3)
+		if rerr == io.EOF {
+			return nil
+		}
+		return rerr
+	}
 	s, _ := verifServer(be)
+	s.LMTP = mode != 0
 	s.ReadTimeout = time.Second
 	vc := &vconn{in: []byte(head + chunk + tail), final: io.EOF}
 	vc.faults = map[int]error{len(head) + at: verifTimeoutErr{}}
@@ -245,11 +265,11 @@ func verif_C07_timeout() {
 	s.handleConn(c)
 	verifSettle()
 	reps, wf := verifParseReplies(vc.out)
-	verifObserve("c07to", shape, at, wf, len(reps), len(be.trace), rerr == io.EOF, len(got))
+	verifObserve("c07to", shape, mode, early, at)
 	verifAssert(wf, "C07.timeout-replies-wellformed")
 	verifAssert(be.find("Mail", "bait@v") < 0, "C07.timeout-no-chunk-octet-executed")
 	if shape != 2 {
-		verifAssert(be.count("Data") == 1 && rerr != nil && rerr != io.EOF, "C07.timeout-backend-never-reads-eof")
+		verifAssert(be.count("Data")+be.count("LMTPData") == 1 && rerr != nil && rerr != io.EOF, "C07.timeout-backend-never-reads-eof")
 		verifAssert(verifIsPrefix(got, []byte(chunk)), "C07.timeout-octets-are-a-prefix")
 	}
 	if wf && len(reps) > nhead {
